@@ -431,7 +431,13 @@ def check_matrix(ctx, ES, M, ts, taumax, lag, cid, tm_s=None, lag_s=None):
                            f"{cid}:es:{i}:{j}", relations=True)
             if res is not None and res[1] is not None:
                 D[i][j], D[j][i] = float(res[0][0]), float(res[0][1])
-    for sym in SYM_ES:
+    # the symmetrisations are requested from ONE object in a random order
+    # (and some of them twice): each answer must be right whatever was
+    # asked before
+    ro = ctx.rng("symorder", cid)
+    order = [SYM_ES[i] for i in ro.permutation(len(SYM_ES))]
+    order += [SYM_ES[i] for i in ro.permutation(len(SYM_ES))[:3]]
+    for sym in order:
         with warnings.catch_warnings():
             warnings.simplefilter("ignore")
             ok, A = ctx.call(obj.event_series_analysis, method="ES",
